@@ -380,11 +380,38 @@ impl<'a> Gen<'a> {
             2 => {
                 // complement of a language that is universal only semantically:
                 // (cells 0..m | cells m+1..k-1)* complemented
+                // ... or universal but for one cell (a hole of one cell, often the first or last)
                 let k = self.ncells;
                 let m = self.rng.below(k as u64) as u32;
-                self.push(Step::new(cl, Range).a(0, m, 0));
+                let hole = self.rng.chance(1, 2);
+                let (hi1, lo2) = if hole {
+                    let h = match self.rng.below(4) {
+                        0 => 0,
+                        1 => k - 1,
+                        _ => m,
+                    };
+                    if h == 0 {
+                        // everything but cell 0: a single range
+                        (u32::MAX, 1.min(k - 1))
+                    } else if h == k - 1 {
+                        (k.saturating_sub(2), u32::MAX)
+                    } else {
+                        (h - 1, h + 1)
+                    }
+                } else {
+                    (m, (m + 1).min(k - 1))
+                };
+                if hi1 != u32::MAX {
+                    self.push(Step::new(cl, Range).a(0, hi1, 0));
+                } else {
+                    self.push(Step::new(cl, ReNone));
+                }
                 let x = self.last(c);
-                self.push(Step::new(cl, Range).a((m + 1).min(k - 1), k - 1, 0));
+                if lo2 != u32::MAX {
+                    self.push(Step::new(cl, Range).a(lo2, k - 1, 0));
+                } else {
+                    self.push(Step::new(cl, ReNone));
+                }
                 let y = self.last(c);
                 self.push(Step::new(cl, Union).a(x, y, 0));
                 let u = self.last(c);
@@ -674,7 +701,12 @@ pub fn generate(seed: u64, prop: Prop) -> Trace {
         Prop::C05 | Prop::C18 | Prop::C16 => 120 + rng.below(200) as u32,
         _ => rng.below(160) as u32,
     };
-    let max_steps = 20 + rng.below(61) as usize;
+    // most runs are short; one in sixteen is long (ids in the hundreds, deep histories)
+    let max_steps = if rng.chance(1, 16) {
+        100 + rng.below(151) as usize
+    } else {
+        20 + rng.below(61) as usize
+    };
     let big_loops = rng.chance(1, 4);
 
     let mut g = Gen {
